@@ -6,7 +6,7 @@
    lists under permutation of the entities is decided on the real results by the rt_merge engine (every message parsed in 5
    entity orders) together with C06_realtime_order_free (no dependence on map iteration). *)
 From Coq Require Import Sorted.
-From GV Require Import Base.Prelude Model.RtTypes Model.RtWire Model.Realtime Proofs.RealtimeProofs Proofs.MergeProofs.
+From GV Require Import Base.Prelude Model.RtTypes Model.RtWire Model.Realtime Proofs.RealtimeProofs Proofs.MergeProofs Gen.Comparators Proofs.ComparatorProofs.
 
 Theorem C07_merge_characterised : forall k ms trips,
   glookup tk_eqb k (fold_left merge_trip ms trips) = final_trip k ms (glookup tk_eqb k trips).
@@ -50,6 +50,17 @@ Theorem C07_vehicles_sorted : forall cm tz cfg m, exists withid idless : list rt
   StronglySorted (fun x y => vcmp x y = true) withid /\ Forall (fun v => ve_id v <> None) withid /\ Forall (fun v => ve_id v = None) idless.
 Proof. exact vehicles_sorted_then_idless. Qed.
 Print Assumptions C07_vehicles_sorted.
+(* ---- tie to the source: TripID.Less and the callback of sort.Slice(result.Vehicles, ...) are TRANSLATED from realtime.go on
+   every run (Gen/Comparators.v); they are the comparisons the model sorts with, and the trips are sorted by that very code ---- *)
+Theorem C07_comparators_from_source :
+  (forall a b, gen_trip_less a b = trip_less a b) /\ (forall a b, gen_vehicle_less a b = vid_less a b) /\ gen_trips_sorted_by_less = true /\
+  In ("ParseRealtime", "result.Trips") sort_sites /\ In ("ParseRealtime", "result.Vehicles") sort_sites.
+Proof. refine (conj gen_trip_less_ok (conj gen_vehicle_less_ok (conj trips_sorted_by_less (conj _ _)))); vm_compute; tauto. Qed.
+Print Assumptions C07_comparators_from_source.
+Theorem C07_sorted_by_source_less : forall cm tz cfg m,
+  StronglySorted (fun x y => gen_trip_less (tr_key x) (tr_key y) = true) (rt_trips (parse_message cm tz cfg m)).
+Proof. exact trips_sorted_by_source_less. Qed.
+Print Assumptions C07_sorted_by_source_less.
 Example C07_example :
   let k := {| k_id := "t1"; k_route := ""; k_dir := 0; k_has_time := false; k_time := 0; k_has_date := false; k_date := zero_instant; k_rel := 0 |} in
   let own := {| tr_key := k; tr_stus := [{| su_seq := Some 1; su_stop := Some "A"; su_arr := None; su_dep := None; su_track := None; su_rel := 0 |}]; tr_vehicle := None; tr_in_msg := true |} in
